@@ -157,61 +157,50 @@ def writers(ctx, F):
 
 
 def set_position_discipline(ctx, F):
-    """On every path of set_position: total op= old slot (inverse op), slot := f(new content), total op= slot (forward op)."""
+    """set_position, executed symbolically and folded per case of the new content (empty / a piece P):
+    final hash = (hash ^ old slot) ^ X and the hash slot ends as the same X; final score = (score - old slot) + Y and the
+    score slot ends as Y; the board slot ends as the new content; X and Y depend on the new content and the square only."""
+    from .common import set_position_summary
     fn = F.fn("chess::Game::set_position")
-    body = hir.strip(fn["hir"]["body"])
-    env = hir.Env(fn["hir"], F)
-    sym = hir.Sym(env, F)
-    seq = []
-    for st in body.get("stmts") or ():
-        n = hir.strip(st)
-        if any(x.get("k") in ("If", "Match", "Loop", "Ret") and not x.get("mac") for x, _ in hir.walk(n) if x is not n and x.get("k") != "Closure") \
-                and n.get("k") in ("If", "Match", "Loop"):
-            seq.append("BRANCH")
-        if n.get("k") == "AssignOp":
-            l = hir.strip(n["l"])
-            if l.get("k") == "Field" and l["name"] in ("hash", "score"):
-                seq.append((l["name"], n["op"], _slot_name(sym(n["r"]))))
-        elif n.get("k") == "Assign":
-            l = hir.strip(n["l"])
-            tgt = _slot_name(sym(n["l"]))
-            r = sym(n["r"])
-            rt = hir.fmt(r, 300)
-            if tgt == "board":
-                seq.append(("store", "board", "new" if r == ("var", "new_place") else rt))
-            elif tgt == "past_scores":
-                okv = "Piece::score(" in rt and "self.piece_scores" in rt and "unwrap_or" in rt and "0)" in rt
-                seq.append(("store", "past_scores", "score(new)" if okv else rt))
-            elif tgt == "past_hashes":
-                okv = "Piece::hash(" in rt and "unwrap_or" in rt     # which key an empty square gets is C04's business
-                seq.append(("store", "past_hashes", "key(new)" if okv else rt))
-    want = [("hash", "^=", "past_hashes"), ("score", "-=", "past_scores"), ("store", "board", "new"),
-            ("store", "past_scores", "score(new)"), ("store", "past_hashes", "key(new)"),
-            ("hash", "^=", "past_hashes"), ("score", "+=", "past_scores")]
-    # order constraints rather than exact sequence
-    def idx(x, start=0):
-        try:
-            return seq.index(x, start)
-        except ValueError:
-            return -1
-    h_out, s_out = idx(want[0]), idx(want[1])
-    st_b, st_s, st_h = idx(want[2]), idx(want[3]), idx(want[4])
-    h_in, s_in = idx(want[5], st_h + 1 if st_h >= 0 else 0), idx(want[6])
-    ok = min(h_out, s_out, st_b, st_s, st_h, h_in, s_in) >= 0 and h_out < st_h < h_in and s_out < st_s < s_in \
-        and st_b < st_s and st_b < st_h and "BRANCH" not in seq and len(seq) == 7
-    ctx.check("C03.S1", "set_position-discipline", ok, fn=fn["path"], file=fn["file"], line=fn["span"][0],
+    try:
+        sm = set_position_summary(F)
+    except hir.Unsupported as e:
+        ctx.check("C03.S1", "set_position-discipline", False, fn=fn["path"], file=fn["file"], line=fn["span"][0], nontrivial=False,
+                  what="set_position is no longer a loop-free update that can be summarised: %s" % e)
+        return
+    pos_name, new_name = sm["params"]
+    old = sm["old"]
+    problems = []
+    for case in ("None", "Some"):
+        c = sm[case]
+        want_board = ("variant", "std::prelude::v1::None") if case == "None" else ("ctor", "std::prelude::v1::Some", (("var", "P"),))
+        if c["board"] != want_board:
+            problems.append("%s: board slot ends as %s" % (case, hir.fmt(c["board"], 80) if c["board"] else None))
+        for total, slot, arr, out_op, in_op in (("hash", "slot_h", "past_hashes", "^", "^"), ("score", "slot_s", "past_scores", "-", "+")):
+            X = c[slot]
+            T = c[total]
+            if X is None or T is None or arr not in old:
+                problems.append("%s: %s or its slot is not updated" % (case, total))
+                continue
+            base = ("field", ("var", "self"), total)
+            exp1 = ("bin", in_op, ("bin", out_op, base, old[arr]), X)
+            ok = T == exp1
+            if not ok and in_op == "^":
+                ok = hir.canon(T) == hir.canon(exp1)
+            if not ok:
+                problems.append("%s: %s ends as %s, slot as %s" % (case, total, hir.fmt(T, 200), hir.fmt(X, 80)))
+            # the recomputed contribution reads the new content / the square / the tables, never the old slot or old total
+            bad = [x for x in hir.subterms(X) if x in (old.get("past_hashes"), old.get("past_scores"), old.get("board")) or
+                   (x[:1] == ("field",) and x[1:2] == (("var", "self"),) and x[2] in ("hash", "score"))]
+            if bad:
+                problems.append("%s: new %s contribution reads old state: %s" % (case, total, hir.fmt(bad[0], 80)))
+    ctx.check("C03.S1", "set_position-discipline", not problems, fn=fn["path"], file=fn["file"], line=fn["span"][0],
               what="set_position must take the old cached contribution out of hash/score, store the new content, recompute the "
                    "cached contribution from the NEW content and add it back, on every path",
-              expected=[str(w) for w in want], found=[str(s) for s in seq])
-    # the slots are those of the square being written
-    idxs = set()
-    for n, anc in hir.walk(body):
-        if n.get("k") == "MethodCall" and n["name"] in ("get_unchecked_mut", "get_mut", "index_mut"):
-            idxs.add(hir.fmt(sym(n["args"][0]), 80))
-        if n.get("k") == "Index":
-            idxs.add(hir.fmt(sym(n["i"]), 80))
-    ctx.check("C03.S1", "set_position-slots-of-the-same-square", idxs == {"Position::as_usize(position)"}, fn=fn["path"], file=fn["file"],
-              what="board, past_scores and past_hashes must be indexed by the same square", found=sorted(idxs))
+              expected="hash' = (hash ^ old) ^ X, slot' = X; score' = (score - old) + Y, slot' = Y; board slot' = new content",
+              found=problems or {k: hir.fmt(v, 120) for k, v in sm["Some"].items() if isinstance(v, tuple)})
+    ctx.check("C03.S1", "set_position-slots-of-the-same-square", sm["index"] == {"Position::as_usize(%s)" % pos_name}, fn=fn["path"], file=fn["file"],
+              what="board, past_scores and past_hashes must be indexed by the same square", found=sorted(sm["index"]))
 
 
 def _slot_name(t):
@@ -249,41 +238,80 @@ def s1b(ctx, F):
         ctx.check("C03.S1b", "swapped-table-is-the-king-table", king_only, fn=path, file=fn["file"], line=hir.line(sets[0]) if sets else None,
                   what="a table other than the king's is swapped at run time: every square holding that piece kind would need re-seating "
                        "(not supported by this rule)", found=sorted(which))
-        # re-seating: set_position(get_king_position(p), get_position(get_king_position(p))) for both players, after the swap
+        # re-seating: set_position(X, get_position(X)) with X ranging over both kings' squares, after the swap and under the
+        # same condition.  X may be get_king_position(P) (P a literal side, or the variable of a loop over both sides) or
+        # self.king_positions[i] (i over all indices: literals, a `for` over 0..2 / the array, or a counting `while`).
         reseated = set()
+        symt = hir.Sym(env, F, through=True)
+        swap_guard = [(hir.fmt(x[1]), x[2]) for x in (hir.guards_of(sets[0], body, sym) or []) if x[0] == "if"] if sets else []
         for c, anc in hir.walk(body):
-            if c.get("k") == "MethodCall" and c["name"] == "set_position" and sets and hir.raw_line(c) >= hir.raw_line(sets[0]):
-                sq, val = sym(c["args"][0]), sym(c["args"][1])
-                if sq[0] == "var":
-                    # `let position = self.get_king_position(p);` immediately before the call (no mutation in between)
-                    blk = [a for a in anc if a.get("k") in ("Block", "Loop")][-1]
-                    sts = blk.get("stmts") or []
-                    for i, st in enumerate(sts):
-                        if any(x is c for x, _ in hir.walk(st)) and i > 0:
-                            prev = sts[i - 1]
-                            if prev.get("k") == "SLet" and prev["pat"].get("name") == sq[1]:
-                                real = sym(prev["init"])
-                                val = hir.subst(val, {sq: real})
-                                sq = real
-                if sq[0] == "call" and str(sq[1]).endswith("Game::get_king_position") and \
-                        val == ("call", "chess::Game::get_position", (("var", "self"), sq)):
-                    who = sq[2][1]
-                    if who[0] == "variant":
-                        reseated.add(who[1].split("::")[-1])
-                    elif who[0] == "var":
-                        # loop variable over an array of players
-                        g = hir.guards_of(c, body, sym) or []
-                        for x in g:
-                            if x[0] == "arm" and x[1][0] == "call" and str(x[1][1]).endswith("into_iter"):
-                                arr = x[1][2][0]
-                                if arr[0] == "arr":
-                                    for el in arr[1:]:
-                                        if el[0] == "variant":
-                                            reseated.add(el[1].split("::")[-1])
-                    same_fn_guard = [x for x in (hir.guards_of(c, body, sym) or []) if x[0] == "if"]
-                    swap_guard = [x for x in (hir.guards_of(sets[0], body, sym) or []) if x[0] == "if"]
-                    if [(hir.fmt(x[1]), x[2]) for x in same_fn_guard] != [(hir.fmt(x[1]), x[2]) for x in swap_guard]:
-                        reseated.discard(who[1].split("::")[-1] if who[0] == "variant" else "")
+            if not (c.get("k") == "MethodCall" and c["name"] == "set_position" and sets and hir.raw_line(c) >= hir.raw_line(sets[0])):
+                continue
+            blk = [a for a in anc if a.get("k") in ("Block", "Loop")][-1]
+            sts = blk.get("stmts") or []
+            pos_i = [i for i, st in enumerate(sts) if any(x is c for x, _ in hir.walk(st))]
+            # the locals the call reads must be defined by lets directly in front of it (nothing but lets in between)
+            k0 = pos_i[0] if pos_i else 0
+            j = k0
+            while j > 0 and sts[j - 1].get("k") == "SLet":
+                j -= 1
+            adjacent = {nm for st in sts[j:k0] for nm in hir.pat_names(st["pat"])}
+            sq_n, val_n = c["args"][0], c["args"][1]
+            names_used = {x["to"]["name"] for a_ in (sq_n, val_n) for x, _ in hir.walk(a_) if x.get("k") == "Path" and x["to"].get("res") == "local"}
+            through_ok = all(nm in adjacent or nm == "self" or sym(a_) == symt(a_) for nm in names_used for a_ in (sq_n, val_n))
+            sq, val = (symt(sq_n), symt(val_n)) if through_ok else (sym(sq_n), sym(val_n))
+            if val != ("call", "chess::Game::get_position", (("var", "self"), sq)):
+                continue
+            g_all = hir.guards_of(c, body, sym) or []
+            here = [(hir.fmt(x[1]), x[2]) for x in g_all if x[0] == "if"]
+            loop_conds = []
+            who = None
+            if sq[0] == "call" and str(sq[1]).endswith("Game::get_king_position"):
+                who = sq[2][1]
+            elif sq[0] == "index" and sq[1] == ("field", ("var", "self"), "king_positions"):
+                who = ("kidx", sq[2])
+            elif sq[0] == "var":
+                who = ("elem", sq[1])
+            sides = set()
+            if who is None:
+                continue
+            if who[0] == "variant":
+                sides.add(who[1].split("::")[-1])
+            elif who[0] == "kidx" and hir.sym_int(who[1]) in (0, 1):
+                sides.add(("White", "Black")[hir.sym_int(who[1])])
+            else:
+                var = who[1] if who[0] == "var" else (who[1][1] if who[0] == "kidx" and who[1][0] == "var" else (who[1] if who[0] == "elem" else None))
+                # `for` loops: the arm that binds `var`
+                for x in g_all:
+                    if x[0] == "arm" and x[1][0] == "call" and str(x[1][1]).endswith("into_iter"):
+                        it = x[1][2][0]
+                        if who[0] == "var" and it[0] == "arr" and all(el[0] == "variant" for el in it[1:]):
+                            sides |= {el[1].split("::")[-1] for el in it[1:]}
+                        if who[0] == "elem" and it == ("field", ("var", "self"), "king_positions"):
+                            sides |= {"White", "Black"}
+                        if who[0] == "kidx":
+                            t_it = hir.fmt(hir.resolve_consts(it, F), 120)
+                            if t_it in ("ops::Range{end: 2, start: 0}", "ops::Range{end: <impl [T]>::len(self.king_positions), start: 0}"):
+                                sides |= {"White", "Black"}
+                # counting `while`: let mut i = 0; while i < len { ..; i += 1 }
+                if who[0] == "kidx" and var is not None and not sides:
+                    loops = [a for a in anc if a.get("k") == "Loop" and "While" in str(a.get("src"))]
+                    inits = [n_ for n_, _ in hir.walk(body) if n_.get("k") == "SLet" and n_["pat"].get("name") == var and n_.get("init") is not None
+                             and hir.sym_int(sym(n_["init"])) == 0]
+                    if loops and len(inits) == 1:
+                        lp = loops[-1]
+                        incs = [n_ for n_, _ in hir.walk(lp) if n_.get("k") == "AssignOp" and hir.strip(n_["l"]).get("to", {}).get("name") == var]
+                        other = [n_ for n_, _ in hir.walk(lp) if n_.get("k") == "Assign" and hir.strip(n_["l"]).get("to", {}).get("name") == var]
+                        jumps = [n_ for n_, a2 in hir.walk(lp) if n_.get("k") in ("Continue", "Ret") or (n_.get("k") == "Break" and not n_.get("mac"))]
+                        cond_ok = any(t in ("(%s < <impl [T]>::len(self.king_positions))" % var, "(%s < 2)" % var) and pol for t, pol in
+                                      [(hir.fmt(hir.canon(hir.resolve_consts(x[1], F)), 120), x[2]) for x in g_all if x[0] == "if"])
+                        if len(incs) == 1 and incs[0]["op"] == "+=" and hir.sym_int(sym(incs[0]["r"])) == 1 and not other and cond_ok and \
+                                hir.raw_line(incs[0]) > hir.raw_line(c) and len(jumps) <= 1:
+                            sides |= {"White", "Black"}
+                            loop_conds = [t for t, pol in here if t.startswith("(%s <" % var)]
+            here2 = [(t, pol) for t, pol in here if t not in loop_conds]
+            if here2 == swap_guard:
+                reseated |= sides
         ctx.check("C03.S1b", "both-kings-reseated-after-table-swap", reseated == {"White", "Black"}, fn=path, file=fn["file"],
                   line=hir.line(sets[0]) if sets else fn["span"][0],
                   what="the king table is swapped but the kings' cached contributions are not recomputed: score stops being the sum of "
